@@ -45,16 +45,22 @@ fn main() {
             invalid += 1;
             continue;
         }
-        let hist = gen_history(&mut g, conf.M.len(), calls, big_ids);
+        let hist = gen_history(&mut g, conf.M.len(), if conf.M.len() > 8 { calls / 3 + 1 } else { calls }, big_ids);
         let fseed = seed.wrapping_mul(1_000_003).wrapping_add(sc);
         let machines: Vec<maybenot::Machine> =
             conf.M.iter().map(|m| m.to_machine_unchecked()).collect();
+        // machines without real distribution families also meet rare random words
+        // (all ones, zero, extreme mantissas) in every other scenario
+        let no_real = conf.M.iter().all(|m| m.states.iter().all(|s| {
+            [&s.action.timeout, &s.action.duration, &s.action.limit, &s.ca.dist, &s.cb.dist].iter().all(|d| d.real.is_none())
+        }));
+        let spiked = no_real && sc % 2 == 1;
         let mk = || {
             FwRun::from_machines(
                 machines.clone(),
                 verif_harness::model::frac(conf.fwPad),
                 verif_harness::model::frac(conf.fwBlk),
-                Xoshiro256StarStar::seed_from_u64(fseed),
+                verif_harness::srng::Spiked { inner: Xoshiro256StarStar::seed_from_u64(fseed), lcg: fseed ^ 0x1234, on: spiked },
             )
         };
         let (mut run, mut twin) = match (mk(), mk()) {
@@ -68,7 +74,7 @@ fn main() {
             }
         };
         let clone_at = g.gen_range(0..hist.len().max(1));
-        let mut clone: Option<FwRun<Xoshiro256StarStar>> = None;
+        let mut clone: Option<FwRun<verif_harness::srng::Spiked>> = None;
         let mut lines = vec![json!({"k": "reset", "id": sc}), run.new_line(&conf)];
         let mut nondet = false;
         for (ci, c) in hist.iter().enumerate() {
@@ -118,12 +124,115 @@ fn main() {
         }
         n_written += 1;
     }
+    // boundary tour: the same kind of scenario with amounts from the part of the u64 range the
+    // specification's integer encoding leaves out (around 2^31, 2^32, 2^53, 2^62, 2^63). Nothing is
+    // given to TLC; what is judged is what needs no model: every call returns (C01) and the run is
+    // a function of its inputs (C05).
+    let boundary: u64 = arg(&args, "--boundary").and_then(|s| s.parse().ok()).unwrap_or(0);
+    let mut bout = arg(&args, "--boundary-out").map(|p| std::io::BufWriter::new(std::fs::File::create(p).unwrap()));
+    let (mut b_run, mut b_calls, mut b_panic, mut b_nondet) = (0u64, 0u64, 0u64, 0u64);
+    const B: [f64; 14] = [
+        9223372036854775808.0, // 2^63
+        9223372036854774784.0, // 2^63 - 1024
+        9223372036854777856.0, // 2^63 + 2048
+        4611686018427387904.0, // 2^62
+        13835058055282163712.0, // 2^63 + 2^62
+        18446744073709549568.0, // 2^64 - 2048
+        18446744073709551616.0, // 2^64 (saturates)
+        4294967296.0, 4294967295.0, 2147483648.0, 2147483647.0,
+        9007199254740992.0, 9007199254740994.0, // 2^53, 2^53 + 2
+        1e19,
+    ];
+    for sc in 0..boundary {
+        let conf = gen_conf(&mut g, false);
+        if conf.M.iter().any(|m| m.to_machine().is_err()) {
+            continue;
+        }
+        let hist = gen_history(&mut g, conf.M.len(), if conf.M.len() > 8 { calls / 3 + 1 } else { calls }, false);
+        let mut machines: Vec<maybenot::Machine> = conf.M.iter().map(|m| m.to_machine_unchecked()).collect();
+        let constant = |g: &mut GRng| {
+            let v = B[g.gen_range(0..B.len())];
+            maybenot::dist::Dist::new(maybenot::dist::DistType::Uniform { low: v, high: v }, 0.0, 0.0)
+        };
+        for m in machines.iter_mut() {
+            if g.gen_bool(0.3) {
+                m.allowed_padding_packets = B[g.gen_range(0..B.len())] as u64;
+            }
+            if g.gen_bool(0.3) {
+                m.allowed_blocked_microsec = B[g.gen_range(0..B.len())] as u64;
+            }
+            for st in m.states.iter_mut() {
+                for c in [&mut st.counter.0, &mut st.counter.1] {
+                    if let Some(c) = c.as_mut() {
+                        if g.gen_bool(0.6) {
+                            c.dist = Some(constant(&mut g));
+                        }
+                    }
+                }
+                if let Some(a) = st.action.as_mut() {
+                    use maybenot::action::Action;
+                    let l = match a {
+                        Action::SendPadding { limit, .. } => limit,
+                        Action::BlockOutgoing { limit, .. } => limit,
+                        Action::UpdateTimer { limit, .. } => limit,
+                        Action::Cancel { .. } => continue,
+                    };
+                    if l.is_some() && g.gen_bool(0.5) {
+                        *l = Some(constant(&mut g));
+                    }
+                }
+            }
+        }
+        if machines.iter().any(|m| m.validate().is_err()) {
+            continue;
+        }
+        let fseed = seed.wrapping_mul(7_000_003).wrapping_add(sc);
+        let mk = || {
+            FwRun::from_machines(
+                machines.clone(),
+                verif_harness::model::frac(conf.fwPad),
+                verif_harness::model::frac(conf.fwBlk),
+                Xoshiro256StarStar::seed_from_u64(fseed),
+            )
+        };
+        let (mut run, mut twin) = match (mk(), mk()) {
+            (Ok(a), Ok(b)) => (a, b),
+            _ => continue,
+        };
+        b_run += 1;
+        let mut problem: Option<serde_json::Value> = None;
+        for (ci, c) in hist.iter().enumerate() {
+            let o = run.call(&c.events, c.t);
+            let o2 = twin.call(&c.events, c.t);
+            b_calls += 1;
+            if let Some(msg) = &o.panic {
+                b_panic += 1;
+                problem = Some(json!({"what": "panic", "msg": msg, "call": ci}));
+                break;
+            }
+            if o.lines != o2.lines {
+                b_nondet += 1;
+                problem = Some(json!({"what": "nondet", "call": ci}));
+                break;
+            }
+        }
+        if let (Some(pb), Some(bf)) = (problem, bout.as_mut()) {
+            writeln!(bf, "{}", json!({"scenario": sc, "problem": pb, "rng_seed": fseed,
+                "fractions": [verif_harness::model::frac(conf.fwPad), verif_harness::model::frac(conf.fwBlk)],
+                "machines": machines.iter().map(|m| m.serialize()).collect::<Vec<_>>(),
+                "history": hist.iter().map(|c| json!({"t": c.t, "events": c.events})).collect::<Vec<_>>()})).unwrap();
+        }
+    }
+    if let Some(bf) = bout.as_mut() {
+        bf.flush().unwrap();
+    }
     f.flush().unwrap();
     println!(
         "{}",
         json!({"scenarios": scenarios, "written": n_written, "invalid_generated": invalid,
                "calls": n_calls, "transitions": n_trans, "actions": n_actions,
                "panics": n_panic, "gap_skipped": n_gap, "nondeterministic": n_nondet,
+               "boundary": {"run": b_run, "calls": b_calls, "panics": b_panic, "nondeterministic": b_nondet},
                "sample": sample})
     );
 }
